@@ -81,16 +81,25 @@ func cut(s string, n int) string {
 	return s[:n]
 }
 
+// cutCols keeps the first n columns (characters) of a rendered record.
+func cutCols(s string, n int) string {
+	r := []rune(s)
+	if len(r) < n {
+		return s
+	}
+	return string(r[:n])
+}
+
 func obsStd(e *ach.EntryDetail) obsEntry {
 	var b strings.Builder
-	b.WriteString(cut(e.String(), 79))
+	b.WriteString(cutCols(e.String(), 79))
 	n := 0
 	if e.Addenda02 != nil {
 		b.WriteString("|" + e.Addenda02.String())
 		n++
 	}
 	for _, a := range e.Addenda05 {
-		b.WriteString("|" + cut(a.String(), 83))
+		b.WriteString("|" + cutCols(a.String(), 83))
 		n++
 	}
 	if e.Addenda98 != nil {
@@ -118,11 +127,11 @@ func obsStd(e *ach.EntryDetail) obsEntry {
 
 func obsIAT(e *ach.IATEntryDetail) obsEntry {
 	var b strings.Builder
-	b.WriteString(cut(e.String(), 79))
+	b.WriteString(cutCols(e.String(), 79))
 	n := 0
 	add := func(present bool, s func() string, w int) {
 		if present {
-			b.WriteString("|" + cut(s(), w))
+			b.WriteString("|" + cutCols(s(), w))
 			n++
 		}
 	}
@@ -149,7 +158,7 @@ func obsIAT(e *ach.IATEntryDetail) obsEntry {
 func obsADV(e *ach.ADVEntryDetail) obsEntry {
 	// the sequence number (last 4 columns) is rewritten by build on purpose
 	n := 0
-	s := cut(e.String(), 90)
+	s := cutCols(e.String(), 90)
 	if e.Addenda99 != nil {
 		s += "|" + e.Addenda99.String()
 		n = 1
@@ -162,7 +171,7 @@ func obsADV(e *ach.ADVEntryDetail) obsEntry {
 func observe(f *ach.File) []obsBatch {
 	var out []obsBatch
 	for _, b := range f.Batches {
-		ob := obsBatch{Kind: 'S', Sig: cut(b.GetHeader().String(), 87), Num: b.GetHeader().BatchNumber}
+		ob := obsBatch{Kind: 'S', Sig: cutCols(b.GetHeader().String(), 87), Num: b.GetHeader().BatchNumber}
 		for _, e := range b.GetEntries() {
 			ob.Entries = append(ob.Entries, obsStd(e))
 		}
@@ -173,7 +182,7 @@ func observe(f *ach.File) []obsBatch {
 	}
 	for i := range f.IATBatches {
 		b := &f.IATBatches[i]
-		ob := obsBatch{Kind: 'I', Sig: cut(b.Header.String(), 87), Num: b.Header.BatchNumber}
+		ob := obsBatch{Kind: 'I', Sig: cutCols(b.Header.String(), 87), Num: b.Header.BatchNumber}
 		for _, e := range b.Entries {
 			ob.Entries = append(ob.Entries, obsIAT(e))
 		}
@@ -400,6 +409,15 @@ func figures(bs []obsBatch) (count, debit, credit int) {
 	return
 }
 
+func isASCII(s string) bool {
+	for i := 0; i < len(s); i++ {
+		if s[i] >= 0x80 {
+			return false
+		}
+	}
+	return true
+}
+
 // categoryUniform: batches with equal header signatures hold entries of one category.
 func categoryUniform(bs []obsBatch) bool {
 	cat := map[string]int{}
@@ -441,6 +459,14 @@ func check(s fileSpec) (fails []failure, label string, ok bool) {
 		fails = append(fails, failure{Kind: "fail", Key: key, What: what, Case: s})
 	}
 	in := observe(f)
+	// the reader has its own limits (character set sniffed from the first 1024 bytes, C01):
+	// only a pure-ASCII file whose input rendering reads back is required to read back
+	// after flattening
+	inReadable := false
+	if rawIn, _, err := render(f); err == nil {
+		_, rerr := ach.NewReader(strings.NewReader(rawIn)).Read()
+		inReadable = rerr == nil && isASCII(rawIn)
+	}
 	res := flatten(f)
 	class := s.Tag
 	if class == "" {
@@ -473,7 +499,7 @@ func check(s fileSpec) (fails []failure, label string, ok bool) {
 	raw, text, werr := render(g)
 	if werr != nil {
 		fail("flatten:result-unwritable:"+class, "result cannot be written: "+werr.Error())
-	} else if _, rerr := ach.NewReader(strings.NewReader(raw)).Read(); rerr != nil {
+	} else if _, rerr := ach.NewReader(strings.NewReader(raw)).Read(); rerr != nil && inReadable {
 		fail("flatten:result-unreadable:"+class, "rendered result is rejected by the reader: "+rerr.Error())
 	}
 	// same multiset of entries
